@@ -1,0 +1,34 @@
+//go:build verif
+
+package pool
+
+import (
+	"math/bits"
+)
+
+// VerifQuotaRemaining returns the raw quota counters (files, bytes) of
+// a FilePool created by NewQuotaEnforcingFilePool. It is only used by
+// external verification tooling and never decides anything.
+func VerifQuotaRemaining(fp FilePool) (filesRemaining, bytesRemaining uint64, ok bool) {
+	q, isQuota := fp.(*quotaEnforcingFilePool)
+	if !isQuota {
+		return 0, 0, false
+	}
+	return q.filesRemaining.remaining.Load(), q.bytesRemaining.remaining.Load(), true
+}
+
+// VerifFreeSectorCount returns the number of one bits (free sectors) in
+// the bitmap of a SectorAllocator created by NewBitmapSectorAllocator.
+func VerifFreeSectorCount(sa SectorAllocator) (int, bool) {
+	b, isBitmap := sa.(*bitmapSectorAllocator)
+	if !isBitmap {
+		return 0, false
+	}
+	b.lock.Lock()
+	defer b.lock.Unlock()
+	n := 0
+	for _, w := range b.freeBitmap {
+		n += bits.OnesCount64(w)
+	}
+	return n, true
+}
